@@ -416,7 +416,8 @@ func init() {
 			},
 			Faults: Faults{WriteCuts: cutsEdge, WriteErr: true, WriteTimeout: true, Cut: true, NoResponse: true,
 				Store: map[string]bool{"load": true, "save": true}},
-			Horizon: 3000,
+			Horizon:   3000,
+			StepCheck: stepDeadlinesC07,
 			Final: func(w *World) {
 				w.monitorWire()
 				w.monitorAckTiming()
